@@ -24,6 +24,10 @@ pub fn cfg() -> GenCfg {
     let mut g = GenCfg::full();
     // (`-` and `+` are not names the rename and navigation properties are about)
     g.block_labels = false;
+    // (a variable that is assigned several times has several definitions; which of them an occurrence belongs to is a
+    // matter of source order, which the static binding model used here does not know)
+    g.var_shadow = false;
+    g.cond_defs = true;
     g.max_stmts = 28;
     g.constructs_boost = true;
     g
